@@ -69,10 +69,20 @@ class NamesFrame:
 
 class PolarsCollectSchemaComponents(Contract):
     target = f"{DFP}.collect_schema_components"
-    split = {"present": ["both", "k0", "k1", "none"], "dtype": ["none", "declared"]}
+    split = {"present": ["both", "k0", "k1", "none"], "dtype": ["none", "declared"], "declared": ["two", "no_columns"]}
 
     def setup(self, I):
         install_polars_engine_dtype(I)
+
+        def new_column(I_, dtype=None, *a, name=None, **k):
+            # Column(schema.dtype, name=...): a new component of the per-frame list (its constructor has its own contract: C09 / C16)
+            c = Obj(PlColumn, f"Column({name})", pre=False)
+            c.attrs.update(name=name, _dtype=dtype, regex=False, required=True, coerce=False, nullable=False, unique=False, default=None, checks=ListObj(),
+                           selector=name, drop_invalid_rows=False)
+            cur().ghost.setdefault("built_columns", []).append(c)
+            return c
+
+        I.models[id(PlColumn)] = new_column
         import pandera.api.polars.utils as PU
         import pandera.backends.polars.container as PC
 
@@ -84,8 +94,9 @@ class PolarsCollectSchemaComponents(Contract):
         from pandera.backends.polars.container import DataFrameSchemaBackend as B
 
         present = {"both": ["k0", "k1"], "k0": ["k0"], "k1": ["k1"], "none": []}[self.fixed.get("present", "both")]
+        declared = ("k0", "k1") if self.fixed.get("declared", "two") == "two" else ()
         cols = DictObj()
-        for k in ("k0", "k1"):
+        for k in declared:
             c = pl_column_ref(regex=T.Const(False)).fresh(f"schema.columns[{k}]")
             c.attrs["name"] = k
             c.attrs0["name"] = k
@@ -101,7 +112,7 @@ class PolarsCollectSchemaComponents(Contract):
         info = T.Ref(None).fresh("column_info")
         absent = ListObj()
         req = {}
-        for k in ("k0", "k1"):
+        for k in declared:
             r = fld(cols[k], "required")
             req[k] = bool(cur().decide(r, f"required[{k}]")) if not isinstance(r, bool) else r
             if req[k] and k not in present:
@@ -109,7 +120,7 @@ class PolarsCollectSchemaComponents(Contract):
         for a, v in (("absent_column_names", absent), ("regex_match_patterns", ListObj())):
             info.attrs[a] = v
             info.attrs0[a] = v
-        cur().ghost.update(present=present, req=req, cols=cols, sdt=sdt)
+        cur().ghost.update(present=present, req=req, cols=cols, sdt=sdt, declared=declared)
         return {"self": T.Ref(B).fresh("self"), "check_obj": NamesFrame(present), "schema": schema, "column_info": info}
 
     def call_target(self, I, fn, a):
@@ -117,7 +128,9 @@ class PolarsCollectSchemaComponents(Contract):
 
     def ensures(self, result, old, self_, check_obj, schema, column_info):
         g = cur().ghost
-        want = [k for k in ("k0", "k1") if k in g["present"]]  # (an absent required column is reported by check_column_presence, an absent optional one is skipped)
+        # no declared column and a dataframe dtype: one component per column of the frame, in frame order
+        implied = not g["declared"] and g["sdt"] is not None
+        want = list(g["present"]) if implied else [k for k in g["declared"] if k in g["present"]]  # (an absent required column is reported by check_column_presence, an absent optional one is skipped)
         own = list(dict.values(g["cols"]))
         comps = list(result) if isinstance(result, (list, ListObj)) else None
         out = {"returns_a_list": comps is not None}
@@ -126,12 +139,35 @@ class PolarsCollectSchemaComponents(Contract):
         out["exactly_the_columns_to_validate"] = [fld(c, "name") for c in comps] == want
         out["every_component_is_a_private_copy"] = all(isinstance(c, Obj) and c.pre is False and all(c is not o for o in own) for c in comps)
         out["components_do_not_coerce"] = all(fld(c, "coerce") is False for c in comps)
+        out["the_schema_declares_what_it_declared"] = list(dict.keys(g["cols"])) == list(g["declared"]) and schema.attrs["columns"] is g["cols"]
         if g["sdt"] is not None:
             out["dataframe_dtype_overrides_the_column_dtype"] = all(fld(c, "_dtype") is g["sdt"] for c in comps)
         else:
             out["column_dtype_kept_without_a_dataframe_dtype"] = all(fld(c, "_dtype") is fld0(g["cols"][fld(c, "name")], "_dtype") or isinstance(fld(c, "_dtype"), Obj)
                                                                       for c in comps)
         return out
+
+    def concretize(self, rec):
+        def thunk():
+            """a schema that declares only a dataframe dtype, validated once: it must still declare no columns"""
+            import warnings
+
+            import polars as pl
+            import pandera.polars as pp
+
+            warnings.simplefilter("ignore")
+            schema = pp.DataFrameSchema(dtype=pl.Int64)
+            before = list(schema.columns)
+            schema.validate(pl.DataFrame({"a": [1], "b": [2]}))
+            after = list(schema.columns)
+            verdict = "accepted"
+            try:
+                schema.validate(pl.DataFrame({"c": [1]}))
+            except Exception as e:  # noqa: BLE001
+                verdict = f"{type(e).__name__}: {e}"[:120]
+            return after != before or verdict != "accepted", {"schema.columns before": before, "after one validation": after, "a later frame with other columns": verdict}
+
+        return thunk
 
 
 class PolarsRunSchemaComponentChecks(Contract):
@@ -252,6 +288,15 @@ class PolarsRunSchemaComponentChecks(Contract):
         return thunk
 
 
-PolarsCollectSchemaComponents.concretize = PolarsRunSchemaComponentChecks.concretize
+_dtype_only_replay = PolarsCollectSchemaComponents.concretize
+
+
+def _collect_replay(self, rec):
+    if "no_columns" in (rec.get("note") or ""):
+        return _dtype_only_replay(self, rec)
+    return PolarsRunSchemaComponentChecks.concretize(self, rec)
+
+
+PolarsCollectSchemaComponents.concretize = _collect_replay
 
 CONTRACTS = [PolarsCollectSchemaComponents, PolarsRunSchemaComponentChecks]
